@@ -79,7 +79,7 @@ def build_cases(ctx):
     rng = ctx.rng
     quick = ctx.tier == 'quick'
     n_per = {'table': 500, 'direct': 200, 'csv': 700, 'csvfile': 160, 'pandas': 120, 'sqlite': 120} if quick else \
-            {'table': 12000, 'direct': 4000, 'csv': 16000, 'csvfile': 2500, 'pandas': 2500, 'sqlite': 2500}
+            {'table': 50000, 'direct': 15000, 'csv': 60000, 'csvfile': 10000, 'pandas': 8000, 'sqlite': 8000}
     protos = []
     for kind, n in n_per.items():
         for _ in range(n):
@@ -152,6 +152,9 @@ def model_expect(cases):
             k += 1
             if m == 4040404:
                 exp.append({'model': 'ERR'})
+                continue
+            if len(m) == 2:                     # the model's parse rejects the query text
+                exp.append({'error': True, 'why': 'parse error %r' % (m[1],)})
                 continue
             hdr = [lib.dec_str(x) for x in m[0][0]] if m[0] else None
             recs = [[lib.dec_str(f) for f in r] for r in m[1]]
@@ -231,7 +234,7 @@ def describe(c, e, g):
 
 def build_join_cases(ctx):
     rng = ctx.rng
-    n = 120 if ctx.tier == 'quick' else 2000
+    n = 120 if ctx.tier == 'quick' else 8000
     protos = []
     for _ in range(n):
         an = gen_names(rng)
@@ -248,7 +251,7 @@ def build_join_cases(ctx):
     for p, e in zip(protos, escd):
         n = p['bn'][p['i']]
         var = {'attr': 'b.' + n, 'dq': 'b["' + e + '"]', 'sq': "b['" + e + "']"}[p['style']]
-        q = 'select %s join @B on a1 == b1%s' % (var, mod_suffix(rng, p['mod']))
+        q = 'select %s join JOINFILE_7f3a on a1 == b1%s' % (var, mod_suffix(rng, p['mod']))
         cases.append({'kind': 'csvfile', 'src': 'csvjoin', 'records': [p['an']] + p['arows'], 'join_records': [p['bn']] + p['brows'],
                       'queries': [q], 'var': var, 'flag': p['flag'], 'mod': p['mod'], 'names_all': p['bn'], 'col': p['i']})
     return cases
@@ -264,7 +267,7 @@ def join_expect(cases):
     vargs = []
     for c, b in zip(cases, hb):
         names = [lib.dec_str(x) for x in b[0][0]] if b[0] else None
-        vargs.append(lib.enc([2, c['queries'][0].replace('@B', '/tmp/tb.csv'), ord('b'), lib.Opt(names), lib.Opt(None)]))
+        vargs.append(lib.enc([2, c['queries'][0].replace('JOINFILE_7f3a', '/tmp/tb.csv'), ord('b'), lib.Opt(names), lib.Opt(None)]))
     vm = lib.run_model(522, vargs)
     out = []
     for c, a, b, v in zip(cases, ha, hb, vm):
@@ -288,13 +291,16 @@ def join_expect(cases):
 
 def build_internal(ctx):
     rng = ctx.rng
-    n = 1500 if ctx.tier == 'quick' else 40000
+    n = 1500 if ctx.tier == 'quick' else 150000
     protos = []
     for _ in range(n):
         names = gen_names(rng)
         src = rng.choice([0, 0, 1, 2, 2])
         if src == 1 and rng.random() < 0.85:
             names = gen_names(rng, idents=True)
+        if rng.random() < 0.2:                       # duplicate column names (outside the property, inside the model:
+            j = rng.randrange(len(names))            # the dictionary comprehension keeps the LAST duplicate)
+            names = names + [names[j]] if rng.random() < 0.5 else [names[j]] + names
         protos.append({'names': names, 'src': src})
     allq = []
     for p in protos:
@@ -375,7 +381,7 @@ ESC_PIECES = ['\\\\', '\\"', "\\'", '\\n', '\\r', '\\t', '\\a', '\\b', '\\f', '\
 
 def build_literals(ctx):
     rng = ctx.rng
-    n = 4000 if ctx.tier == 'quick' else 150000
+    n = 4000 if ctx.tier == 'quick' else 500000
     texts = []
     names = []
     for _ in range(n // 2):
